@@ -7,6 +7,26 @@ BASELINE = ("cd /repo && (cargo nextest run --workspace --no-fail-fast --tool-co
 
 # id -> (level, technique, level text, note, design ref)
 CHECKS = {
+ "C06": ("exploration",
+         "exhaustive finite product (token corpus x style x tag x target x 16 option vectors) + proptest numeric tokens + exhaustive short base64 strings; oracle = independent three-valued reference model (own big integer, Rust float parser, own strict base64 decoder)",
+         "Every cell of about 280 core tokens x 5 styles x 9 tags x 20 targets, 1242 (thorough 2616) width-boundary integer spellings in every radix x 20 targets, all 299593 base64 strings of length <= 6 over an 8-character alphabet, all byte arrays of length <= 2, random numeric-looking tokens and byte arrays; each case is evaluated under all 16 option vectors at the root and inside a sequence against a model that answers Must / MustErr / Free, plus a per-option metamorphic relation (an option changes acceptance only in the documented direction). Exhaustive over the stated finite product, exploration beyond.",
+         "trusts the reference model (each Must cites README / rustdoc; undocumented corners are Free) and Rust's str::parse as the IEEE oracle; the harness is built with the robotics feature compiled in (option off)",
+         "DESIGN.md section 3 C06; notes/report-C06.md"),
+ "C09": ("exploration",
+         "differential property-based testing across entry points: exhaustive read-partitions of short multi-byte token strings + schedule family over a corpus + proptest documents; pointer-range oracle for borrowing",
+         "All 2^(n-1) partitions of 3853 short token strings containing multi-byte characters (147362 document/schedule pairs), a 51-document corpus x schedule family (1 byte, fixed k, random, adversarial splits inside characters / CRLF / indicators) x 6 targets x 7 option vectors, random valid and mutated documents: from_str, from_slice, with_deserializer_* and from_reader under every schedule must agree on the value, or on error variant + line + column; a leading BOM is ignored by all; &str targets succeed exactly when the scalar is verbatim in the input (returned slices lie inside the input buffer), Cow targets equal owned, reader entry points never call visit_borrowed_str. Exploration, exhaustive for the short-string partitions.",
+         "byte offsets are not compared (documented absent for readers); lending of block scalars is not fixed by the docs; two open findings in the parser dependency (tag handle without suffix, column after a multi-byte comment at EOF) and the reader '%' hang (C01) are excluded by construction",
+         "DESIGN.md section 3 C09; notes/report-C09.md"),
+ "C10": ("fault_enumeration",
+         "fault enumeration: every byte position / every read call / every write call x error kinds x post-fault behaviour x chunkings x entry points over crafted documents whose prefixes are complete documents; oracle = fault-free result F",
+         "About 80 crafted and 1300 enumerated documents x every fault position and every k-th read x 6 error kinds x sticky / clean-EOF x 3 chunkings x from_reader, with_deserializer_from_reader, read and the validating twins; EOF inside every multi-byte character; input caps around the length incl. endless readers (bytes pulled <= cap + 16 KiB); writers failing at every call / accepted byte count with short writes over 60 values x 11 option vectors. If the faulting call was made the result must be an error (iterator: prefix of F then an error), else equal F; the writer returns the injected kind and what it accepted is a prefix of the fault-free output. Every single-fault position of the listed documents is enumerated.",
+         "Interrupted is not injected (the property excludes it); which error variant a reader returns is not judged; caps within 3 bytes of the length on BOM inputs are not judged; the instrumented reader panics with a sentinel after 10000 polls past its end so that a spin becomes a failure, not a hang",
+         "DESIGN.md section 3 C10; notes/report-C10.md"),
+ "C17": ("exploration",
+         "property-based testing of rendered reports with a layout parser as oracle: exhaustive cube around the error column + generated failing (input, target) pairs x renderers (Display, render_with_options x formatters x SnippetMode, miette handlers)",
+         "2365 reflecting documents (escapes, raw controls, wide and bidi text reflected through unknown field / variant, duplicate key, invalid type, custom messages, tags, validation paths, alias errors), an exhaustive cube of 15840 cases (character class x prefix x suffix x radius x context shape) around the error column, 10-20 k character lines, inputs beyond the 3 KiB reader window, two-window alias reports, token soup and mutated seeds; for every rendering: no panic, no C0 (except newline / tab) / DEL / C1, at most 5 consecutive source lines within [L-2, L+2] containing L, each shown line a fragment of the input line with that number, cropping within the documented radius, caret under the reported column (display columns). Exploration.",
+         "layout facts are taken from rustdoc / tests and self-checked against annotate-snippets at start-up; undocumented layout (lone CR, multi-line messages, implicit last empty line) is not judged; the harness' custom formatter / localizer is clean by construction",
+         "DESIGN.md section 3 C17; notes/report-C17.md"),
  "C13": ("exploration",
          "property-based round trip over run-time type descriptions (proptest) + exhaustive small trees; oracle = one well-formed document and equality after a run-time-schema DeserializeSeed",
          "A fixed family of all trees of depth <= 2 (thorough 3) with <= 2 children per node over 9 leaf kinds x 11 option vectors, plus random (type, value) pairs to depth 5 under random option vectors: every serde data-model shape (options, sequences, tuples, tuple structs, newtype structs, maps with scalar and composite keys, structs, the four enum variant kinds) in every parent position; the emitted text must be exactly one document and deserialize back to the same value through a seed that calls the same serde methods a derived type would call (self-checked against derived types). Exploration over the enumerated family and samples.",
